@@ -170,6 +170,11 @@ func c17Check(env *h.Env, c *c17Case) error {
 			return h.Infra(err)
 		}
 		view = base
+		if c.View != "filtered" && len(c.Tree.Nodes)%3 == 0 {
+			// the wrapper Send puts around every view: over a complete tree it changes nothing
+			view = fsutil.WithHardlinkReset(base)
+			env.Class("plain-view-under-hardlink-reset")
+		}
 		if c.View == "filtered" {
 			fv, err := fsutil.NewFilterFS(base, &fsutil.FilterOpt{IncludePatterns: listArg(c.Include, len(c.Tree.Nodes)%2 == 0), ExcludePatterns: listArg(c.Exclude, len(c.Tree.Nodes)%2 == 0)})
 			if err != nil {
